@@ -307,8 +307,8 @@ def run_hist(case):
 
 
 def legs(tier):
-    return [Leg('fit', _case(), run, 2500, 100000, max_shrink_buckets=8),
-            Leg('history', _case(hist=True), run_hist, 600, 20000)]
+    return [Leg('fit', _case(), run, 10000, 100000, max_shrink_buckets=8),
+            Leg('history', _case(hist=True), run_hist, 2400, 20000)]
 
 
 REGIONS = {}
